@@ -37,6 +37,10 @@ type Pool struct {
 	// needed to load headers and commits to verify evidence
 	blockStore BlockStore
 
+	// serializes AddEvidence (called by the reactor, one goroutine per peer) with CheckEvidence and Update
+	// (called by consensus): each of them checks the pending and committed buckets and then writes to them
+	poolMtx sync.Mutex
+
 	mtx sync.Mutex
 	// latest state
 	state sm.State
@@ -103,6 +107,9 @@ func (evpool *Pool) PendingEvidence(maxBytes int64) ([]types.Evidence, int64) {
 //  3. Moves pending evidence that has now been committed into the committed pool.
 //  4. Removes any expired evidence based on both height and time.
 func (evpool *Pool) Update(state sm.State, ev types.EvidenceList) {
+	evpool.poolMtx.Lock()
+	defer evpool.poolMtx.Unlock()
+
 	// sanity check
 	if state.LastBlockHeight <= evpool.state.LastBlockHeight {
 		panic(fmt.Sprintf(
@@ -134,6 +141,9 @@ func (evpool *Pool) Update(state sm.State, ev types.EvidenceList) {
 
 // AddEvidence checks the evidence is valid and adds it to the pool.
 func (evpool *Pool) AddEvidence(ev types.Evidence) error {
+	evpool.poolMtx.Lock()
+	defer evpool.poolMtx.Unlock()
+
 	evpool.logger.Debug("Attempting to add evidence", "ev", ev)
 
 	// We have already verified this piece of evidence - no need to do it again
@@ -192,6 +202,9 @@ func (evpool *Pool) ReportConflictingVotes(voteA, voteB *types.Vote) {
 // evidence has already been committed or is being proposed twice. It also adds any
 // evidence that it doesn't currently have so that it can quickly form ABCI Evidence later.
 func (evpool *Pool) CheckEvidence(evList types.EvidenceList) error {
+	evpool.poolMtx.Lock()
+	defer evpool.poolMtx.Unlock()
+
 	hashes := make([][]byte, len(evList))
 	for idx, ev := range evList {
 
